@@ -300,14 +300,15 @@ def r4(ctx):
         for nd in dcfg.nodes:
             if nd.kind == "test" and isinstance(nd.ast, ast.Compare) and len(nd.ast.ops) == 1 and isinstance(nd.ast.ops[0], (ast.Eq, ast.NotEq)):
                 sides = [nd.ast.left, nd.ast.comparators[0]]
-                lens = [x for x in sides if norm(x) == "len(%s)" % rv]
-                other = [x for x in sides if norm(x) != "len(%s)" % rv]
+                is_len = lambda x: norm(x) == "len(%s)" % rv or (isinstance(x, ast.Call) and norm(x.func) == "len" and len(x.args) == 1 and x.args[0] is rd[0])
+                lens = [x for x in sides if is_len(x)]
+                other = [x for x in sides if not is_len(x)]
                 if len(lens) == 1 and len(other) == 1 and value(de, other[0], nd.ast) == n_r:
                     cut[nd.id] = "T" if isinstance(nd.ast.ops[0], ast.Eq) else "F"
         reach = reach_without(dcfg, dcfg.entry, cut)
         rets = [n for n in dcfg.stmts((ast.Return,))]
         rz = [n for n in dcfg.stmts((ast.Raise,)) if n.id in reach]
-        ctx.check(rv is not None and len(cut) == 1 and bool(rz), "C11.R4", de, "short padding -> raise", "a hello shorter than a full datagram is refused before any reply",
+        ctx.check(len(cut) == 1 and bool(rz), "C11.R4", de, "short padding -> raise", "a hello shorter than a full datagram is refused before any reply",
                   witness=[norm(dcfg.nodes[k].ast) for k in cut])
         if cut:
             ctx.check(bool(rets) and not any(r.id in reach for r in rets) and dcfg.exit not in reach, "C11.R4", de, "deserialize returns only after the padding check passed")
